@@ -416,18 +416,23 @@ impl FixtureDatabase {
         file_path: &Path,
         visited: &mut HashSet<PathBuf>,
     ) -> HashSet<String> {
-        let canonical_path = self.get_canonical_path(file_path.to_path_buf());
+        self.get_imported_fixtures_in_walk(file_path, visited).0
+    }
 
-        // Prevent circular imports
-        if visited.contains(&canonical_path) {
-            debug!("Circular import detected for {:?}, skipping", file_path);
-            return HashSet::new();
-        }
-        visited.insert(canonical_path.clone());
+    /// One step of the import walk. `in_progress` holds the modules currently being computed
+    /// further up in this walk. Besides the fixture names, returns the modules of `in_progress`
+    /// at which the walk below this file was cut short (import cycles): a result that depends
+    /// on such a cut is only valid inside this walk and must not be cached.
+    fn get_imported_fixtures_in_walk(
+        &self,
+        file_path: &Path,
+        in_progress: &mut HashSet<PathBuf>,
+    ) -> (HashSet<String>, HashSet<PathBuf>) {
+        let canonical_path = self.get_canonical_path(file_path.to_path_buf());
 
         // Get the file content first (needed for cache validation)
         let Some(content) = self.get_file_content(&canonical_path) else {
-            return HashSet::new();
+            return (HashSet::new(), HashSet::new());
         };
 
         let content_hash = Self::hash_content(&content);
@@ -440,22 +445,37 @@ impl FixtureDatabase {
             let (cached_content_hash, cached_version, cached_fixtures) = cached.value();
             if *cached_content_hash == content_hash && *cached_version == current_version {
                 debug!("Cache hit for imported fixtures in {:?}", canonical_path);
-                return cached_fixtures.as_ref().clone();
+                return (cached_fixtures.as_ref().clone(), HashSet::new());
             }
         }
 
-        // Compute imported fixtures
-        let imported_fixtures = self.compute_imported_fixtures(&canonical_path, &content, visited);
+        // Prevent circular imports: this module is being computed further up
+        if in_progress.contains(&canonical_path) {
+            debug!("Circular import detected for {:?}, skipping", file_path);
+            return (HashSet::new(), HashSet::from([canonical_path]));
+        }
+        in_progress.insert(canonical_path.clone());
 
-        // Store in cache
-        self.imported_fixtures_cache.insert(
-            canonical_path.clone(),
-            (
-                content_hash,
-                current_version,
-                Arc::new(imported_fixtures.clone()),
-            ),
-        );
+        // Compute imported fixtures
+        let (imported_fixtures, mut cut_at) =
+            self.compute_imported_fixtures(&canonical_path, &content, in_progress);
+
+        // A module reached again through another route (diamond) is computed again or served
+        // from the cache; only a cycle back to a module still in progress cuts the walk.
+        in_progress.remove(&canonical_path);
+        cut_at.remove(&canonical_path);
+
+        // Store in cache (complete results only)
+        if cut_at.is_empty() {
+            self.imported_fixtures_cache.insert(
+                canonical_path.clone(),
+                (
+                    content_hash,
+                    current_version,
+                    Arc::new(imported_fixtures.clone()),
+                ),
+            );
+        }
 
         info!(
             "Found {} imported fixtures for {:?}: {:?}",
@@ -464,7 +484,7 @@ impl FixtureDatabase {
             imported_fixtures
         );
 
-        imported_fixtures
+        (imported_fixtures, cut_at)
     }
 
     /// Internal method to compute imported fixtures without caching.
@@ -473,11 +493,12 @@ impl FixtureDatabase {
         canonical_path: &Path,
         content: &str,
         visited: &mut HashSet<PathBuf>,
-    ) -> HashSet<String> {
+    ) -> (HashSet<String>, HashSet<PathBuf>) {
         let mut imported_fixtures = HashSet::new();
+        let mut cut_at = HashSet::new();
 
         let Some(parsed) = self.get_parsed_ast_or_last_valid(canonical_path, content) else {
-            return imported_fixtures;
+            return (imported_fixtures, cut_at);
         };
 
         let line_index = self.get_line_index(canonical_path, content);
@@ -514,8 +535,10 @@ impl FixtureDatabase {
                     }
 
                     // Also recursively get fixtures imported into that file
-                    let transitive = self.get_imported_fixtures(&resolved_canonical, visited);
+                    let (transitive, cut) =
+                        self.get_imported_fixtures_in_walk(&resolved_canonical, visited);
                     imported_fixtures.extend(transitive);
+                    cut_at.extend(cut);
                 } else {
                     // Explicit import: only include the specified names if they are fixtures
                     for name in &import.imported_names {
@@ -551,12 +574,14 @@ impl FixtureDatabase {
                     }
                 }
 
-                let transitive = self.get_imported_fixtures(&resolved_canonical, visited);
+                let (transitive, cut) =
+                    self.get_imported_fixtures_in_walk(&resolved_canonical, visited);
                 imported_fixtures.extend(transitive);
+                cut_at.extend(cut);
             }
         }
 
-        imported_fixtures
+        (imported_fixtures, cut_at)
     }
 
     /// Find the definition of `fixture_name` that `file_path` makes available through its
